@@ -10,7 +10,7 @@ import re
 
 import z3
 
-from .core import (Agg, Cell, FnVal, ForkRequest, Loc, MapVal, Obj, PathEnd, Ptr, StrBuf, StrRef, TailCall,
+from .core import (Agg, ByteArr, BytesRef, Cell, FnVal, ForkRequest, Loc, MapVal, Obj, PathEnd, Ptr, StrBuf, StrRef, TailCall,
                    Unsupported, VecVal, b_and, b_not, b_or, bv, copy_value, is_sym, mask, simp, v_eq, zbool)
 
 REG = []  # (compiled regex on def-or-name, fn, label)
@@ -795,3 +795,1028 @@ INTRINSICS = {
     "assert_zero_valid": i_nop,
     "assert_mem_uninitialized_valid": i_nop,
 }
+
+
+# ---------------------------------------------------------------------------
+# Vec<T>  (value-level: VecVal; slices are views (Ptr with ('slice',start,len)
+# meta) and element pointers are Ptr(cell, path+(index,)) - the slice iterator
+# code of core is interpreted on top of that pointer model)
+
+
+def vec_of(m, p):
+    v = deref(m, p)
+    if not isinstance(v, VecVal):
+        raise Unsupported("expected Vec, got %r" % (v,))
+    return v
+
+
+def vec_ptr(m, p):
+    p = m.unwrap_ptr(p)
+    if not isinstance(p, Ptr):
+        raise Unsupported("expected pointer to Vec")
+    return p
+
+
+@summary(r"std::vec::Vec::<T>::new", r"std::vec::Vec::<T, A>::new_in", r"std::vec::Vec::<T>::with_capacity",
+         r"std::vec::Vec::<T, A>::with_capacity_in", r"<std::vec::Vec<T> as std::default::Default>::default")
+def s_vec_new(m, st, info, args):
+    return VecVal()
+
+
+@summary(r"std::vec::Vec::<T, A>::push")
+def s_vec_push(m, st, info, args):
+    vec_of(m, args[0]).items.append(args[1])
+    return unit()
+
+
+@summary(r"std::vec::Vec::<T, A>::push_mut")
+def s_vec_push_mut(m, st, info, args):
+    p = vec_ptr(m, args[0])
+    v = vec_of(m, p)
+    v.items.append(args[1])
+    return Ptr(p.cell, p.path + (len(v.items) - 1,))
+
+
+@summary(r"std::vec::Vec::<T, A>::pop")
+def s_vec_pop(m, st, info, args):
+    v = vec_of(m, args[0])
+    tid = ret_ty(m, info)
+    if not v.items:
+        return mk_none(m, tid)
+    return mk_some(m, tid, v.items.pop())
+
+
+@summary(r"std::vec::Vec::<T, A>::len")
+def s_vec_len(m, st, info, args):
+    return len(vec_of(m, args[0]).items)
+
+
+@summary(r"std::vec::Vec::<T, A>::is_empty")
+def s_vec_is_empty(m, st, info, args):
+    return len(vec_of(m, args[0]).items) == 0
+
+
+@summary(r"std::vec::Vec::<T, A>::capacity")
+def s_vec_capacity(m, st, info, args):
+    return len(vec_of(m, args[0]).items)
+
+
+@summary(r"std::vec::Vec::<T, A>::clear")
+def s_vec_clear(m, st, info, args):
+    vec_of(m, args[0]).items.clear()
+    return unit()
+
+
+@summary(r"std::vec::Vec::<T, A>::truncate")
+def s_vec_truncate(m, st, info, args):
+    n = m.index_value(args[1])
+    del vec_of(m, args[0]).items[n:]
+    return unit()
+
+
+@summary(r"std::vec::Vec::<T, A>::reserve", r"std::vec::Vec::<T, A>::reserve_exact", r"std::vec::Vec::<T, A>::shrink_to_fit")
+def s_vec_reserve(m, st, info, args):
+    return unit()
+
+
+@summary(r"std::vec::Vec::<T, A>::insert")
+def s_vec_insert(m, st, info, args):
+    v = vec_of(m, args[0])
+    i = m.index_value(args[1])
+    if i > len(v.items):
+        raise PathEnd("panic", "Vec::insert index out of bounds")
+    v.items.insert(i, args[2])
+    return unit()
+
+
+@summary(r"std::vec::Vec::<T, A>::remove")
+def s_vec_remove(m, st, info, args):
+    v = vec_of(m, args[0])
+    i = m.index_value(args[1])
+    if i >= len(v.items):
+        raise PathEnd("panic", "Vec::remove index out of bounds")
+    return v.items.pop(i)
+
+
+@summary(r"std::vec::Vec::<T, A>::swap_remove")
+def s_vec_swap_remove(m, st, info, args):
+    v = vec_of(m, args[0])
+    i = m.index_value(args[1])
+    if i >= len(v.items):
+        raise PathEnd("panic", "Vec::swap_remove index out of bounds")
+    x = v.items[i]
+    last = v.items.pop()
+    if i < len(v.items):
+        v.items[i] = last
+    return x
+
+
+@summary(r"std::vec::Vec::<T, A>::extend_from_slice")
+def s_vec_extend_from_slice(m, st, info, args):
+    v = vec_of(m, args[0])
+    v.items.extend(copy_value(x) for x in slice_items(m, args[1]))
+    return unit()
+
+
+@summary(r"std::vec::Vec::<T, A>::append")
+def s_vec_append(m, st, info, args):
+    v = vec_of(m, args[0])
+    o = vec_of(m, args[1])
+    v.items.extend(o.items)
+    o.items = []
+    return unit()
+
+
+def slice_ptr_of_vec(m, p):
+    p = vec_ptr(m, p)
+    v = vec_of(m, p)
+    return Ptr(p.cell, p.path, ("slice", 0, len(v.items)))
+
+
+@summary(r"<std::vec::Vec<T, A> as std::ops::Deref>::deref", r"<std::vec::Vec<T, A> as std::ops::DerefMut>::deref_mut",
+         r"std::vec::Vec::<T, A>::as_slice", r"std::vec::Vec::<T, A>::as_mut_slice",
+         r"<std::vec::Vec<T, A> as std::convert::AsRef<\[T\]>>::as_ref",
+         r"<std::vec::Vec<T, A> as std::borrow::Borrow<\[T\]>>::borrow")
+def s_vec_deref(m, st, info, args):
+    return slice_ptr_of_vec(m, args[0])
+
+
+@summary(r"std::vec::Vec::<T, A>::as_ptr", r"std::vec::Vec::<T, A>::as_mut_ptr")
+def s_vec_as_ptr(m, st, info, args):
+    p = vec_ptr(m, args[0])
+    return Ptr(p.cell, p.path + (0,))
+
+
+def slice_items(m, p):
+    """items of a &[T] / &Vec<T> / &[T;N]"""
+    if type(p) is BytesRef:
+        p = m.materialize_bytes(p.chars)
+    p = m.unwrap_ptr(p) if isinstance(p, Agg) else p
+    if not isinstance(p, Ptr):
+        raise Unsupported("expected slice pointer, got %r" % (p,))
+    cont = m.read_loc(Loc(p.cell, p.path))
+    if not isinstance(cont, VecVal):
+        raise Unsupported("slice over %r" % (cont,))
+    if p.meta is not None and p.meta[0] == "slice":
+        return cont.items[p.meta[1]:p.meta[1] + p.meta[2]]
+    return cont.items
+
+
+@summary(r"<std::vec::Vec<T, A> as std::ops::Index<I>>::index", r"<std::vec::Vec<T, A> as std::ops::IndexMut<I>>::index_mut")
+def s_vec_index(m, st, info, args):
+    p = vec_ptr(m, args[0])
+    v = vec_of(m, p)
+    idx = args[1]
+    n = len(v.items)
+    if isinstance(idx, Agg):
+        tn = m.p.types.get(idx.ty, {}).get("name", "")
+        lo, hi = 0, n
+        if tn.endswith("RangeFrom"):
+            lo = m.index_value(idx.f[0])
+        elif tn.endswith("RangeTo"):
+            hi = m.index_value(idx.f[0])
+        elif tn.endswith("RangeFull"):
+            pass
+        elif tn.endswith("Range"):
+            lo, hi = m.index_value(idx.f[0]), m.index_value(idx.f[1])
+        else:
+            raise Unsupported("Vec index by " + tn)
+        if lo > hi or hi > n:
+            raise PathEnd("panic", "slice index out of range")
+        return Ptr(p.cell, p.path, ("slice", lo, hi - lo))
+    i = m.index_value(idx)
+    if i >= n:
+        raise PathEnd("panic", "index out of bounds: the len is %d but the index is %d" % (n, i))
+    return Ptr(p.cell, p.path + (i,))
+
+
+@summary(r"<std::vec::Vec<T, A> as std::clone::Clone>::clone", r"std::slice::<impl \[T\]>::to_vec",
+         r"std::slice::<impl \[T\]>::to_vec_in", r"<\[T\] as std::borrow::ToOwned>::to_owned",
+         r"<T as std::slice::<impl \[T\]>::to_vec_in::ConvertVec>::to_vec")
+def s_vec_clone(m, st, info, args):
+    return VecVal([copy_value(x) for x in slice_items(m, args[0])])
+
+
+@summary(r"<std::vec::Vec<T, A> as std::iter::IntoIterator>::into_iter")
+def s_vec_into_iter(m, st, info, args):
+    v = args[0]
+    if not isinstance(v, VecVal):
+        raise Unsupported("into_iter on %r" % (v,))
+    return Obj("vec_into_iter", items=list(v.items), i=0)
+
+
+@summary(r"<std::vec::IntoIter<T, A> as std::iter::Iterator>::next")
+def s_vec_into_iter_next(m, st, info, args):
+    it = deref(m, args[0])
+    tid = ret_ty(m, info)
+    d = it.d
+    if d["i"] >= len(d["items"]):
+        return mk_none(m, tid)
+    x = d["items"][d["i"]]
+    d["i"] += 1
+    return mk_some(m, tid, x)
+
+
+@summary(r"<std::vec::IntoIter<T, A> as std::iter::DoubleEndedIterator>::next_back")
+def s_vec_into_iter_next_back(m, st, info, args):
+    it = deref(m, args[0])
+    tid = ret_ty(m, info)
+    d = it.d
+    if d["i"] >= len(d["items"]):
+        return mk_none(m, tid)
+    return mk_some(m, tid, d["items"].pop())
+
+
+def find_next_instance(m, fn, iter_ty_name, depth=6):
+    """locate the `<I as Iterator>::next` instance for iterator type I in the
+    (dumped) call graph below a summarised std function."""
+    want = "<%s as std::iter::Iterator>::next" % iter_ty_name
+    seen = set()
+    frontier = [fn]
+    for _ in range(depth):
+        nxt = []
+        for f in frontier:
+            body = f.get("body")
+            if not body:
+                continue
+            for blk in body["blocks"]:
+                t = blk["t"]
+                if t[0] != "call":
+                    continue
+                ci = t[1]
+                if "fn" not in ci:
+                    continue
+                if ci.get("name") == want:
+                    return ci
+                if ci["fn"] not in seen:
+                    seen.add(ci["fn"])
+                    g = m.p.fns.get(ci["fn"])
+                    if g:
+                        nxt.append(g)
+        frontier = nxt
+    # fall back to any dumped instance with that name
+    for k, f in m.p.fns.items():
+        if f["name"] == want:
+            return {"fn": k, "name": f["name"], "def": f["def"], "kind": f["kind"]}
+    return None
+
+
+def drain_iterator(m, st, info, it_value, it_ty, on_item, on_done):
+    """drive `it.next()` (MIR) until None; on_item(x) for each, then on_done()."""
+    fn = m.p.fns[info["fn"]]
+    tname = m.p.types[it_ty]["s_"]
+    nxt = find_next_instance(m, fn, tname)
+    if nxt is None:
+        raise Unsupported("cannot locate Iterator::next for " + tname)
+    cell = Cell(it_value)
+    ptr = Ptr(cell, ())
+
+    def then(mach, st2, opt):
+        if not isinstance(opt, Agg):
+            raise Unsupported("iterator next returned %r" % (opt,))
+        if len(opt.f) == 0:
+            return on_done()
+        on_item(opt.f[0])
+        return TailCall(nxt, [ptr], then)
+
+    return TailCall(nxt, [ptr], then)
+
+
+@summary(r"<std::vec::Vec<T> as std::iter::FromIterator<T>>::from_iter",
+         r"<std::vec::Vec<T> as std::vec::spec_from_iter::SpecFromIter<T, I>>::from_iter")
+def s_vec_from_iter(m, st, info, args):
+    it = args[0]
+    if isinstance(it, Obj) and it.kind == "vec_into_iter":
+        return VecVal(it.d["items"][it.d["i"]:])
+    if isinstance(it, VecVal):
+        return it
+    out = VecVal()
+    it_ty = m.p.fns[info["fn"]]["arg_tys"][0]
+    return drain_iterator(m, st, info, it, it_ty, out.items.append, lambda: out)
+
+
+@summary(r"<std::vec::Vec<T, A> as std::iter::Extend<T>>::extend", r"<std::vec::Vec<T, A> as std::iter::Extend<&'a T>>::extend")
+def s_vec_extend(m, st, info, args):
+    v = vec_of(m, args[0])
+    it = args[1]
+    if isinstance(it, VecVal):
+        v.items.extend(it.items)
+        return unit()
+    it_ty = m.p.fns[info["fn"]]["arg_tys"][1]
+    return drain_iterator(m, st, info, it, it_ty, v.items.append, unit)
+
+
+@summary(r"<std::string::String as std::iter::FromIterator<char>>::from_iter",
+         r"<std::string::String as std::iter::FromIterator<&'a str>>::from_iter",
+         r"<std::string::String as std::iter::FromIterator<std::string::String>>::from_iter")
+def s_string_from_iter(m, st, info, args):
+    out = StrBuf()
+    it_ty = m.p.fns[info["fn"]]["arg_tys"][0]
+
+    def add(x):
+        if isinstance(x, (StrRef, StrBuf)):
+            out.chars.extend(as_str(m, x))
+        else:
+            out.chars.append(x)
+
+    return drain_iterator(m, st, info, args[0], it_ty, add, lambda: out)
+
+
+# ---------------------------------------------------------------------------
+# raw pointer arithmetic on element pointers
+
+
+def ptr_add(m, p, n):
+    if not isinstance(p, Ptr):
+        p = m.unwrap_ptr(p)
+    if not isinstance(p, Ptr) or not p.path:
+        raise Unsupported("pointer arithmetic on %r" % (p,))
+    n = m.index_value(n) if not isinstance(n, int) else n
+    if n >= (1 << 63):
+        n -= 1 << 64
+    return Ptr(p.cell, p.path[:-1] + (p.path[-1] + n,), p.meta)
+
+
+def i_offset(m, st, info, args):
+    return ptr_add(m, args[0], args[1])
+
+
+def i_ptr_offset_from(m, st, info, args):
+    a, b = m.unwrap_ptr(args[0]), m.unwrap_ptr(args[1])
+    if not (isinstance(a, Ptr) and isinstance(b, Ptr)) or a.cell is not b.cell or a.path[:-1] != b.path[:-1]:
+        raise Unsupported("ptr_offset_from on unrelated pointers")
+    return (a.path[-1] - b.path[-1]) & mask(64)
+
+
+INTRINSICS.update({
+    "offset": i_offset,
+    "arith_offset": i_offset,
+    "ptr_offset_from": i_ptr_offset_from,
+    "ptr_offset_from_unsigned": i_ptr_offset_from,
+})
+
+
+# ---------------------------------------------------------------------------
+# HashMap / HashSet as association lists.  Key equality is structural and may
+# be symbolic (decided by the solver, forking).  Iteration order is insertion
+# order (real HashMap order is unspecified: see DESIGN, trusted base).
+
+
+def keys_equal(m, a, b):
+    """structural equality -> bool / z3 Bool"""
+    if isinstance(a, Ptr):
+        a = deref(m, a)
+    if isinstance(b, Ptr):
+        b = deref(m, b)
+    if isinstance(a, (StrRef, StrBuf)) and isinstance(b, (StrRef, StrBuf)):
+        return chars_eq(tuple(a.chars), tuple(b.chars))
+    if isinstance(a, Agg) and isinstance(b, Agg):
+        if a.var != b.var or len(a.f) != len(b.f):
+            return False
+        return b_and(*[keys_equal(m, x, y) for x, y in zip(a.f, b.f)])
+    if isinstance(a, VecVal) and isinstance(b, VecVal):
+        if len(a.items) != len(b.items):
+            return False
+        return b_and(*[keys_equal(m, x, y) for x, y in zip(a.items, b.items)])
+    if isinstance(a, (bool, int)) or is_sym(a):
+        return v_eq(a, b)
+    raise Unsupported("hash key comparison of %r and %r" % (a, b))
+
+
+def map_of(m, p):
+    v = deref(m, p)
+    if isinstance(v, Agg) and len(v.f) >= 1 and isinstance(v.f[0], MapVal):
+        v = v.f[0]  # ahash::AHashMap newtype
+    if not isinstance(v, MapVal):
+        raise Unsupported("expected HashMap, got %r" % (v,))
+    return v
+
+
+def map_find(m, mp, key):
+    """index of the entry equal to key or None (forks on symbolic equality)."""
+    for i, (k, _v) in enumerate(mp.entries):
+        if m.decide(keys_equal(m, k, key), "map-key-eq"):
+            return i
+    return None
+
+
+@summary(r"<std::collections::HashMap<K, V, S> as std::default::Default>::default",
+         r"std::collections::HashMap::<K, V, S>::with_hasher", r"<std::collections::HashMap<K, V, S> as ahash::HashMapExt>::new",
+         r"<std::collections::HashMap<K, V, S> as ahash::HashMapExt>::with_capacity",
+         r"std::collections::HashMap::<K, V, S>::with_capacity_and_hasher",
+         r"<std::collections::HashSet<T, S> as std::default::Default>::default",
+         r"std::collections::HashSet::<T, S>::with_hasher", r"<std::collections::HashSet<K, S> as ahash::HashSetExt>::new",
+         r"<std::collections::HashSet<T, S> as ahash::HashSetExt>::new",
+         r"std::collections::HashMap::<K, V>::new", r"std::collections::HashSet::<T>::new")
+def s_map_new(m, st, info, args):
+    return MapVal()
+
+
+@summary(r"<ahash::AHashMap<K, V, S> as std::default::Default>::default", r"ahash::AHashMap::<K, V>::new",
+         r"ahash::AHashMap::<K, V, S>::with_hasher", r"ahash::AHashMap::<K, V>::with_capacity")
+def s_ahashmap_new(m, st, info, args):
+    return Agg(ret_ty(m, info), 0, [MapVal()])
+
+
+@summary(r"ahash::random_state::RandomState::new", r"<ahash::random_state::RandomState as std::default::Default>::default",
+         r"<ahash::RandomState as std::default::Default>::default", r"ahash::RandomState::new")
+def s_random_state(m, st, info, args):
+    return Agg(ret_ty(m, info), 0, [0, 0, 0, 0])
+
+
+@summary(r"std::collections::HashMap::<K, V, S, A>::insert", r"ahash::AHashMap::<K, V, S>::insert")
+def s_map_insert(m, st, info, args):
+    mp = map_of(m, args[0])
+    tid = ret_ty(m, info)
+    i = map_find(m, mp, args[1])
+    if i is None:
+        mp.entries.append([args[1], args[2]])
+        return mk_none(m, tid)
+    old = mp.entries[i][1]
+    mp.entries[i][1] = args[2]
+    return mk_some(m, tid, old)
+
+
+@summary(r"std::collections::HashMap::<K, V, S, A>::get", r"std::collections::HashMap::<K, V, S, A>::get_mut",
+         r"ahash::AHashMap::<K, V, S>::get")
+def s_map_get(m, st, info, args):
+    p = m.unwrap_ptr(args[0])
+    mp = map_of(m, p)
+    tid = ret_ty(m, info)
+    i = map_find(m, mp, args[1])
+    if i is None:
+        return mk_none(m, tid)
+    cont = deref(m, p)
+    path = p.path + ((0,) if isinstance(cont, Agg) else ())
+    return mk_some(m, tid, Ptr(p.cell, path + ("map", i)))
+
+
+@summary(r"std::collections::HashMap::<K, V, S, A>::contains_key")
+def s_map_contains_key(m, st, info, args):
+    return map_find(m, map_of(m, args[0]), args[1]) is not None
+
+
+@summary(r"std::collections::HashMap::<K, V, S, A>::remove")
+def s_map_remove(m, st, info, args):
+    mp = map_of(m, args[0])
+    tid = ret_ty(m, info)
+    i = map_find(m, mp, args[1])
+    if i is None:
+        return mk_none(m, tid)
+    return mk_some(m, tid, mp.entries.pop(i)[1])
+
+
+@summary(r"std::collections::HashMap::<K, V, S, A>::len", r"std::collections::HashSet::<T, S, A>::len")
+def s_map_len(m, st, info, args):
+    return len(map_of(m, args[0]).entries)
+
+
+@summary(r"std::collections::HashMap::<K, V, S, A>::is_empty", r"std::collections::HashSet::<T, S, A>::is_empty")
+def s_map_is_empty(m, st, info, args):
+    return len(map_of(m, args[0]).entries) == 0
+
+
+@summary(r"std::collections::HashMap::<K, V, S, A>::clear", r"std::collections::HashSet::<T, S, A>::clear")
+def s_map_clear(m, st, info, args):
+    map_of(m, args[0]).entries.clear()
+    return unit()
+
+
+@summary(r"std::collections::HashSet::<T, S, A>::insert")
+def s_set_insert(m, st, info, args):
+    mp = map_of(m, args[0])
+    i = map_find(m, mp, args[1])
+    if i is None:
+        mp.entries.append([args[1], unit()])
+        return True
+    return False
+
+
+@summary(r"std::collections::HashSet::<T, S, A>::contains")
+def s_set_contains(m, st, info, args):
+    return map_find(m, map_of(m, args[0]), args[1]) is not None
+
+
+@summary(r"std::collections::HashSet::<T, S, A>::remove")
+def s_set_remove(m, st, info, args):
+    mp = map_of(m, args[0])
+    i = map_find(m, mp, args[1])
+    if i is None:
+        return False
+    mp.entries.pop(i)
+    return True
+
+
+@summary(r"std::num::NonZero::<T>::new")
+def s_nonzero_new(m, st, info, args):
+    tid = ret_ty(m, info)
+    n = args[0]
+    if m.decide(v_eq(n, 0), "nonzero"):
+        return mk_none(m, tid)
+    some = variant_index(m, tid, "Some")
+    return Agg(tid, some, [m.wrap_newtype(field_ty(m, tid, some, 0), n)])
+
+
+def map_ptr(m, p):
+    """(cell, path) of the MapVal behind a &HashMap / &AHashMap"""
+    p = m.unwrap_ptr(p)
+    cont = deref(m, p)
+    path = p.path + ((0,) if isinstance(cont, Agg) else ())
+    return p.cell, path
+
+
+@summary(r"<std::collections::HashMap<K, V, S, A> as std::iter::IntoIterator>::into_iter",
+         r"<std::collections::HashSet<T, S, A> as std::iter::IntoIterator>::into_iter",
+         r"std::collections::HashMap::<K, V, S, A>::into_keys", r"std::collections::HashMap::<K, V, S, A>::into_values",
+         r"std::collections::HashMap::<K, V, S, A>::drain")
+def s_map_into_iter(m, st, info, args):
+    v = args[0]
+    if isinstance(v, Ptr):
+        mp = map_of(m, v)
+        ents = list(mp.entries)
+        mp.entries = []
+    else:
+        if isinstance(v, Agg) and v.f and isinstance(v.f[0], MapVal):
+            v = v.f[0]
+        ents = v.entries
+    d = info.get("def", "")
+    mode = "key" if ("HashSet" in d or "into_keys" in d) else ("val" if "into_values" in d else "pair")
+    return Obj("map_into_iter", ents=[list(e) for e in ents], i=0, mode=mode)
+
+
+@summary(r"<std::collections::hash_map::IntoIter<K, V, A> as std::iter::Iterator>::next",
+         r"<std::collections::hash_set::IntoIter<K, A> as std::iter::Iterator>::next",
+         r"<std::collections::hash_map::IntoKeys<K, V, A> as std::iter::Iterator>::next",
+         r"<std::collections::hash_map::IntoValues<K, V, A> as std::iter::Iterator>::next",
+         r"<std::collections::hash_map::Drain<'a, K, V, A> as std::iter::Iterator>::next")
+def s_map_into_iter_next(m, st, info, args):
+    it = deref(m, args[0])
+    tid = ret_ty(m, info)
+    d = it.d
+    if d["i"] >= len(d["ents"]):
+        return mk_none(m, tid)
+    k, v = d["ents"][d["i"]]
+    d["i"] += 1
+    if d["mode"] == "key":
+        return mk_some(m, tid, k)
+    if d["mode"] == "val":
+        return mk_some(m, tid, v)
+    some = variant_index(m, tid, "Some")
+    return Agg(tid, some, [Agg(field_ty(m, tid, some, 0), 0, [k, v])])
+
+
+@summary(r"std::collections::HashMap::<K, V, S, A>::iter", r"std::collections::HashMap::<K, V, S, A>::iter_mut",
+         r"std::collections::HashMap::<K, V, S, A>::keys", r"std::collections::HashMap::<K, V, S, A>::values",
+         r"std::collections::HashMap::<K, V, S, A>::values_mut", r"std::collections::HashSet::<T, S, A>::iter",
+         r"<&'a std::collections::HashMap<K, V, S, A> as std::iter::IntoIterator>::into_iter",
+         r"<&'a std::collections::HashSet<T, S, A> as std::iter::IntoIterator>::into_iter")
+def s_map_iter(m, st, info, args):
+    cell, path = map_ptr(m, args[0])
+    mp = map_of(m, args[0])
+    d = info.get("def", "")
+    if "HashSet" in d or d.endswith("::keys"):
+        mode = "key"
+    elif "values" in d:
+        mode = "val"
+    else:
+        mode = "pair"
+    return Obj("map_iter", cell=Ptr(cell, path), n=len(mp.entries), i=0, mode=mode)
+
+
+@summary(r"<std::collections::hash_map::Iter<'a, K, V> as std::iter::Iterator>::next",
+         r"<std::collections::hash_map::IterMut<'a, K, V> as std::iter::Iterator>::next",
+         r"<std::collections::hash_map::Keys<'a, K, V> as std::iter::Iterator>::next",
+         r"<std::collections::hash_map::Values<'a, K, V> as std::iter::Iterator>::next",
+         r"<std::collections::hash_map::ValuesMut<'a, K, V> as std::iter::Iterator>::next",
+         r"<std::collections::hash_set::Iter<'a, K> as std::iter::Iterator>::next")
+def s_map_iter_next(m, st, info, args):
+    it = deref(m, args[0])
+    tid = ret_ty(m, info)
+    d = it.d
+    if d["i"] >= d["n"]:
+        return mk_none(m, tid)
+    i = d["i"]
+    d["i"] += 1
+    base = d["cell"]
+    kp = Ptr(base.cell, base.path + ("mapkey", i))
+    vp = Ptr(base.cell, base.path + ("map", i))
+    if d["mode"] == "key":
+        return mk_some(m, tid, kp)
+    if d["mode"] == "val":
+        return mk_some(m, tid, vp)
+    some = variant_index(m, tid, "Some")
+    return Agg(tid, some, [Agg(field_ty(m, tid, some, 0), 0, [kp, vp])])
+
+
+@summary(r"<std::collections::HashMap<K, V, S> as std::iter::FromIterator<\(K, V\)>>::from_iter",
+         r"<std::collections::HashSet<T, S> as std::iter::FromIterator<T>>::from_iter")
+def s_map_from_iter(m, st, info, args):
+    out = MapVal()
+    is_set = "HashSet" in info.get("def", "")
+    it_ty = m.p.fns[info["fn"]]["arg_tys"][0]
+    pending = []
+
+    def add(x):
+        pending.append(x)
+
+    def done():
+        # insertion with symbolic key equality is done here, concretely when
+        # keys are concrete; symbolic duplicates are not merged (unsupported)
+        for x in pending:
+            k, v = (x, unit()) if is_set else (x.f[0], x.f[1])
+            dup = False
+            for e in out.entries:
+                eq = keys_equal(m, e[0], k)
+                if eq is True:
+                    e[1] = v
+                    dup = True
+                    break
+                if eq is not False:
+                    raise Unsupported("symbolic duplicate keys in HashMap::from_iter")
+            if not dup:
+                out.entries.append([k, v])
+        return out
+
+    return drain_iterator(m, st, info, args[0], it_ty, add, done)
+
+
+@summary(r"<std::collections::HashMap<K, V, S, A> as std::iter::Extend<\(K, V\)>>::extend",
+         r"<std::collections::HashSet<T, S, A> as std::iter::Extend<T>>::extend")
+def s_map_extend(m, st, info, args):
+    mp = map_of(m, args[0])
+    is_set = "HashSet" in info.get("def", "")
+    it_ty = m.p.fns[info["fn"]]["arg_tys"][1]
+
+    def add(x):
+        k, v = (x, unit()) if is_set else (x.f[0], x.f[1])
+        for e in mp.entries:
+            eq = keys_equal(m, e[0], k)
+            if eq is True:
+                e[1] = v
+                return
+            if eq is not False:
+                raise Unsupported("symbolic duplicate keys in HashMap::extend")
+        mp.entries.append([k, v])
+
+    return drain_iterator(m, st, info, args[1], it_ty, add, unit)
+
+
+def dig(v, cls, depth=8):
+    """first value of class cls inside nested single-purpose wrappers"""
+    if isinstance(v, cls):
+        return v
+    if depth == 0:
+        return None
+    if isinstance(v, Agg):
+        for x in reversed(v.f):
+            r = dig(x, cls, depth - 1)
+            if r is not None:
+                return r
+    return None
+
+
+@summary(r"std::boxed::Box::<T>::new_uninit", r"std::boxed::box_new_uninit")
+def s_box_new_uninit(m, st, info, args):
+    return build_box(m, ret_ty(m, info), Ptr(Cell(None), ()))
+
+
+@summary(r"std::boxed::box_assume_init_into_vec_unsafe", r"std::slice::<impl \[T\]>::into_vec")
+def s_box_into_vec(m, st, info, args):
+    inner = deref(m, args[0])
+    vv = dig(inner, VecVal)
+    if vv is None:
+        raise Unsupported("box into_vec over %r" % (inner,))
+    p = m.unwrap_ptr(args[0])
+    if p.meta is not None and p.meta[0] == "slice":
+        return VecVal(vv.items[p.meta[1]:p.meta[1] + p.meta[2]])
+    return VecVal(vv.items)
+
+
+# ---------------------------------------------------------------------------
+# format!  (new compact fmt::Arguments encoding: template bytes + args)
+
+
+@summary(r"std::fmt::Arguments::<'a>::new")
+def s_fmt_args_new(m, st, info, args):
+    tmpl = slice_items(m, args[0])
+    if not all(isinstance(b, int) for b in tmpl):
+        raise Unsupported("symbolic format template")
+    fargs = slice_items(m, args[1])
+    return Obj("fmt_args", tmpl=tuple(tmpl), args=list(fargs), lit=None)
+
+
+@summary(r"std::fmt::Arguments::<'a>::from_str", r"std::fmt::Arguments::<'a>::from_str_nonconst")
+def s_fmt_args_from_str(m, st, info, args):
+    return Obj("fmt_args", tmpl=(), args=[], lit=as_str(m, args[0]))
+
+
+@summary(r"core::fmt::rt::Argument::<'_>::new_display", r"core::fmt::rt::Argument::<'_>::new_debug",
+         r"core::fmt::rt::Argument::<'_>::new_upper_hex", r"core::fmt::rt::Argument::<'_>::new_lower_hex")
+def s_fmt_arg_new(m, st, info, args):
+    f = m.p.fns[info["fn"]]
+    ty = f["targs"][0] if f.get("targs") else None
+    kind = info["def"].rsplit("::new_", 1)[1]
+    return Obj("fmt_arg", akind=kind, val=args[0], ty=ty)
+
+
+def fmt_value(m, a):
+    """chars for one `{}` argument"""
+    kind, val, ty = a.d["akind"], a.d["val"], a.d["ty"]
+    tname = m.p.types[ty]["s_"] if ty is not None else "?"
+    v = deref(m, val)
+    for _ in range(3):
+        if isinstance(v, Ptr):
+            v = deref(m, v)
+    if kind == "display":
+        if isinstance(v, (StrRef, StrBuf)):
+            return list(v.chars)
+        if isinstance(v, Agg) and m.p.types.get(v.ty, {}).get("name") == "std::borrow::Cow":
+            return list(as_str(m, v))
+        if isinstance(v, int) and not isinstance(v, bool):
+            t = m.p.types[ty]
+            while t["k"] == "ref":
+                t = m.p.types[t["to"]]
+            if t["k"] == "char":
+                return [v]
+            if t["k"] == "int":
+                if t["s"] and v >> (t["w"] - 1):
+                    v -= 1 << t["w"]
+                return [ord(c) for c in str(v)]
+        if is_sym(v):
+            t = m.p.types[ty]
+            while t["k"] == "ref":
+                t = m.p.types[t["to"]]
+            if t["k"] == "char":
+                return [v]
+    raise Unsupported("format! argument of type %s (%s) value %r" % (tname, kind, v))
+
+
+def render_fmt(m, fa):
+    d = fa.d
+    if d["lit"] is not None:
+        return list(d["lit"])
+    t = d["tmpl"]
+    out = []
+    i = 0
+    argi = 0
+    while i < len(t):
+        b = t[i]
+        if b == 0:
+            break
+        if b < 0x80:
+            n = b
+            i += 1
+            out.extend(bytes(t[i:i + n]).decode("utf-8"))
+            i += n
+        elif b == 0x80:
+            n = t[i + 1] | (t[i + 2] << 8)
+            i += 3
+            out.extend(bytes(t[i:i + n]).decode("utf-8"))
+            i += n
+        elif b >= 0xC0:
+            flags = b & 0x3F
+            i += 1
+            if flags & 0b0111:
+                raise Unsupported("format! placeholder with flags/width/precision")
+            if flags & 0b1000:
+                argi = t[i] | (t[i + 1] << 8)
+                i += 2
+            out.append(("arg", argi))
+            argi += 1
+        else:
+            raise Unsupported("format template byte %x" % b)
+    res = []
+    for x in out:
+        if isinstance(x, tuple):
+            res.extend(fmt_value(m, d["args"][x[1]]))
+        else:
+            res.append(ord(x))
+    return res
+
+
+@summary(r"std::fmt::format")
+def s_fmt_format(m, st, info, args):
+    return StrBuf(render_fmt(m, args[0]))
+
+
+# ---------------------------------------------------------------------------
+# bytes of strings: `as_bytes()` yields a BytesRef (a &[u8] that still knows
+# its code points); writing it into a Vec<u8> keeps ("ch", c) items so that
+# String::from_utf8 gives the code points back. Anything that looks at the
+# individual bytes materialises them (forking on UTF-8 length classes).
+
+
+def utf8_bytes(m, c):
+    if isinstance(c, int):
+        return list(chr(c).encode("utf-8"))
+    if m.decide(z3.ULT(c, 0x80), "utf8-1"):
+        return [simp(z3.Extract(7, 0, c))]
+    if m.decide(z3.ULT(c, 0x800), "utf8-2"):
+        return [simp(z3.Extract(7, 0, 0xC0 | z3.LShR(c, 6))), simp(z3.Extract(7, 0, 0x80 | (c & 0x3F)))]
+    if m.decide(z3.ULT(c, 0x10000), "utf8-3"):
+        return [simp(z3.Extract(7, 0, 0xE0 | z3.LShR(c, 12))), simp(z3.Extract(7, 0, 0x80 | (z3.LShR(c, 6) & 0x3F))),
+                simp(z3.Extract(7, 0, 0x80 | (c & 0x3F)))]
+    return [simp(z3.Extract(7, 0, 0xF0 | z3.LShR(c, 18))), simp(z3.Extract(7, 0, 0x80 | (z3.LShR(c, 12) & 0x3F))),
+            simp(z3.Extract(7, 0, 0x80 | (z3.LShR(c, 6) & 0x3F))), simp(z3.Extract(7, 0, 0x80 | (c & 0x3F)))]
+
+
+@summary(r"core::str::<impl str>::as_bytes", r"std::string::String::as_bytes")
+def s_as_bytes(m, st, info, args):
+    return BytesRef(as_str(m, args[0]))
+
+
+def byte_items(m, v):
+    """items for a Vec<u8> from a &[u8]-like value"""
+    if isinstance(v, BytesRef):
+        return [("ch", c) for c in v.chars]
+    return list(slice_items(m, v))
+
+
+@summary(r"<std::vec::Vec<u8, A> as std::io::Write>::write_all", r"std::io::impls::<impl std::io::Write for std::vec::Vec<u8, A>>::write_all",
+         r"std::io::impls::<impl std::io::Write for &mut W>::write_all")
+def s_vec_write_all(m, st, info, args):
+    tgt = deref(m, args[0])
+    if isinstance(tgt, Ptr):
+        tgt = deref(m, tgt)
+    if not isinstance(tgt, VecVal):
+        raise Unsupported("io::Write::write_all into %r" % (tgt,))
+    tgt.items.extend(byte_items(m, args[1]))
+    tid = ret_ty(m, info)
+    return mk_ok(m, tid, unit())
+
+
+@summary(r"std::string::String::from_utf8")
+def s_from_utf8(m, st, info, args):
+    v = args[0]
+    if not isinstance(v, VecVal):
+        raise Unsupported("String::from_utf8 of %r" % (v,))
+    chars = []
+    for x in v.items:
+        if isinstance(x, tuple) and x[0] == "ch":
+            chars.append(x[1])
+        elif isinstance(x, int) and x < 0x80:
+            chars.append(x)
+        else:
+            raise Unsupported("String::from_utf8 over raw non-ASCII / symbolic bytes")
+    return mk_ok(m, ret_ty(m, info), StrBuf(chars))
+
+
+@summary(r"core::str::<impl str>::repeat", r"std::str::<impl str>::repeat")
+def s_str_repeat(m, st, info, args):
+    n = m.index_value(args[1])
+    return StrBuf(list(as_str(m, args[0])) * n)
+
+
+@summary(r"<.* as std::string::SpecToString>::spec_to_string")
+def s_spec_to_string(m, st, info, args):
+    try:
+        return StrBuf(as_str(m, args[0]))
+    except Unsupported:
+        v = deref(m, args[0])
+        if isinstance(v, int) and not isinstance(v, bool):
+            f = m.p.fns[info["fn"]]
+            t = m.p.types[f["arg_tys"][0]]
+            while t["k"] == "ref":
+                t = m.p.types[t["to"]]
+            if t["k"] == "char":
+                return StrBuf([v])
+            if t["k"] == "int":
+                if t["s"] and v >> (t["w"] - 1):
+                    v -= 1 << t["w"]
+                return StrBuf([ord(c) for c in str(v)])
+        if is_sym(v) and v.size() == 32:
+            return StrBuf([v])
+        return NotImplemented
+
+
+@summary(r"std::str::from_utf8", r"core::str::from_utf8", r"core::str::converts::from_utf8")
+def s_str_from_utf8(m, st, info, args):
+    return mk_ok(m, ret_ty(m, info), m.bytes_to_str(args[0]))
+
+
+@summary(r"std::str::from_utf8_unchecked", r"core::str::from_utf8_unchecked", r"core::str::converts::from_utf8_unchecked")
+def s_str_from_utf8_unchecked(m, st, info, args):
+    return m.bytes_to_str(args[0])
+
+
+def elem_ptr_items(m, p, n):
+    """n consecutive items starting at element pointer p"""
+    if type(p) is BytesRef:
+        sp = m.materialize_bytes(p.chars)
+        p = Ptr(sp.cell, sp.path + (0,))
+    p = m.unwrap_ptr(p)
+    if not isinstance(p, Ptr) or not p.path:
+        raise Unsupported("element pointer expected, got %r" % (p,))
+    cont = m.read_loc(Loc(p.cell, p.path[:-1]))
+    if not isinstance(cont, VecVal):
+        raise Unsupported("element pointer into %r" % (cont,))
+    i = p.path[-1]
+    if i + n > len(cont.items):
+        raise Unsupported("out-of-bounds raw read")
+    return cont.items[i:i + n]
+
+
+def i_compare_bytes(m, st, info, args):
+    n = m.index_value(args[2])
+    a = elem_ptr_items(m, args[0], n)
+    b = elem_ptr_items(m, args[1], n)
+    r = 0
+    for x, y in reversed(list(zip(a, b))):
+        if isinstance(x, tuple) or isinstance(y, tuple):
+            raise Unsupported("compare_bytes over code-point items")
+        if isinstance(x, int) and isinstance(y, int):
+            if x != y:
+                r = 0xFFFFFFFF if x < y else 1
+        else:
+            xb, yb = bv(x, 8), bv(y, 8)
+            r = simp(z3.If(xb == yb, bv(r, 32), z3.If(z3.ULT(xb, yb), z3.BitVecVal(0xFFFFFFFF, 32), z3.BitVecVal(1, 32))))
+    return r
+
+
+INTRINSICS["compare_bytes"] = i_compare_bytes
+
+
+@summary(r"<std::str::Chars<'a> as std::iter::Iterator>::nth")
+def s_chars_nth(m, st, info, args):
+    it = deref(m, args[0])
+    n = m.index_value(args[1])
+    tid = ret_ty(m, info)
+    d = it.d
+    if d["i"] + n >= d["j"]:
+        d["i"] = d["j"]
+        return mk_none(m, tid)
+    d["i"] += n
+    c = d["s"][d["i"]]
+    d["i"] += 1
+    return mk_some(m, tid, c)
+
+
+@summary(r"<std::str::Chars<'a> as std::iter::Iterator>::advance_by")
+def s_chars_advance_by(m, st, info, args):
+    it = deref(m, args[0])
+    n = m.index_value(args[1])
+    tid = ret_ty(m, info)
+    d = it.d
+    avail = d["j"] - d["i"]
+    k = min(n, avail)
+    d["i"] += k
+    if k == n:
+        return mk_ok(m, tid, unit())
+    err = variant_index(m, tid, "Err")
+    return Agg(tid, err, [m.wrap_newtype(field_ty(m, tid, err, 0), n - k)])
+
+
+@summary(r"<std::str::Chars<'a> as std::iter::Iterator>::last")
+def s_chars_last(m, st, info, args):
+    d = args[0].d
+    tid = ret_ty(m, info)
+    if d["i"] >= d["j"]:
+        return mk_none(m, tid)
+    return mk_some(m, tid, d["s"][d["j"] - 1])
+
+
+def formatter_buf(m, f):
+    """the String a fmt::Formatter writes into"""
+    fa = deref(m, f)
+    if not isinstance(fa, Agg):
+        raise Unsupported("Formatter %r" % (fa,))
+    for x in fa.f:
+        if isinstance(x, Ptr):
+            tgt = m.read_loc(Loc(x.cell, x.path))
+            if isinstance(tgt, StrBuf):
+                return tgt
+    raise Unsupported("Formatter without String sink")
+
+
+@summary(r"std::fmt::Formatter::<'a>::write_fmt")
+def s_formatter_write_fmt(m, st, info, args):
+    buf = formatter_buf(m, args[0])
+    buf.chars.extend(render_fmt(m, args[1]))
+    return mk_ok(m, ret_ty(m, info), unit())
+
+
+@summary(r"std::fmt::Formatter::<'a>::write_str", r"std::fmt::Formatter::<'a>::pad",
+         r"<std::fmt::Formatter<'_> as std::fmt::Write>::write_str")
+def s_formatter_write_str(m, st, info, args):
+    buf = formatter_buf(m, args[0])
+    buf.chars.extend(as_str(m, args[1]))
+    return mk_ok(m, ret_ty(m, info), unit())
+
+
+@summary(r"<str as std::fmt::Display>::fmt", r"<std::string::String as std::fmt::Display>::fmt")
+def s_str_display(m, st, info, args):
+    buf = formatter_buf(m, args[1])
+    buf.chars.extend(as_str(m, args[0]))
+    return mk_ok(m, ret_ty(m, info), unit())
+
+
+@summary(r"<std::string::String as std::fmt::Write>::write_str")
+def s_string_write_str(m, st, info, args):
+    strbuf_of(m, args[0]).chars.extend(as_str(m, args[1]))
+    return mk_ok(m, ret_ty(m, info), unit())
+
+
+@summary(r"<std::string::String as std::fmt::Write>::write_char")
+def s_string_write_char(m, st, info, args):
+    strbuf_of(m, args[0]).chars.append(args[1])
+    return mk_ok(m, ret_ty(m, info), unit())
